@@ -39,6 +39,15 @@ def plan(tier, focus, label):
             step = max(1, len(idx) // per_fam)
             for k in range(per_fam):
                 us.append(('bfs', ch, idx[(k * step + 3 * ci + 1) % len(idx)], None, None, None, 2))
+        # rank-3 seeds with a traceable pair of legs and missing blocks: producer (trace / take_slice / ...) -> consumer
+        def traceable(spec):
+            ls = spec['legs']
+            return any(ls[x]['charges'] == ls[y]['charges'] and ls[x]['sizes'] == ls[y]['sizes'] and ls[x]['qconj'] == -ls[y]['qconj']
+                       for x in range(3) for y in range(x + 1, 3))
+        idx3 = [i for i, (_s, f) in enumerate(seeds) if f == 'r3' and traceable(_s[0]) and len(_s[0]['present']) >= 3]
+        if idx3 and (tier != 'quick' or (label == 'CY' and ch in ('U1', 'Z3'))):
+            for k in range(1 if tier == 'quick' else 3):
+                us.append(('bfs', ch, idx3[(k * 5 + ci) % len(idx3)], None, None, None, 2))
         if tier != 'quick':
             idx = [i for i, (_s, f) in enumerate(seeds) if f == 'r1+conj']
             us.append(('bfs', ch, idx[len(idx) // 2], None, None, None, 3))
